@@ -413,7 +413,8 @@ func (sc SCTPData) SerializeTo(b gopacket.SerializeBuffer, opts gopacket.Seriali
 	binary.BigEndian.PutUint16(bytes[8:10], sc.StreamId)
 	binary.BigEndian.PutUint16(bytes[10:12], sc.StreamSequence)
 	binary.BigEndian.PutUint32(bytes[12:16], uint32(sc.PayloadProtocol))
-	copy(bytes[16:], payload)
+	n := copy(bytes[16:], payload)
+	clear(bytes[16+n:]) // padding
 	return nil
 }
 
@@ -578,6 +579,7 @@ func (sc SCTPSack) SerializeTo(b gopacket.SerializeBuffer, opts gopacket.Seriali
 	for i, v := range sc.DuplicateTSNs {
 		binary.BigEndian.PutUint32(bytes[offset+i*4:], v)
 	}
+	clear(bytes[length:]) // padding
 	return nil
 }
 
@@ -802,6 +804,7 @@ func (sc SCTPCookieEcho) SerializeTo(b gopacket.SerializeBuffer, opts gopacket.S
 	bytes[1] = sc.Flags
 	binary.BigEndian.PutUint16(bytes[2:4], uint16(length))
 	copy(bytes[4:], sc.Cookie)
+	clear(bytes[length:]) // padding
 	return nil
 }
 
